@@ -12,6 +12,11 @@ MODULE = 'Props.C10'
 THEOREMS = ['Vakt.C10.empty_inv', 'Vakt.C10.setattr_inv', 'Vakt.C10.setattr_reject_unchanged',
             'Vakt.C10.set_type_ignored', 'Vakt.C10.mixed_rejected', 'Vakt.C10.illtyped_rejected',
             'Vakt.C10.context_nondict_rejected', 'Vakt.C10.iterator_counts_as_empty', 'Vakt.C10.type_meaning', 'Vakt.C10.history_inv', 'Vakt.C10.ctor_inv']
+# Policy._calculate_type, translated from /repo/vakt/policy.py in this run (harness/pytolean.py -> lean/Gen/Policy.lean), is the
+# model's calcType over the kinds of the elements of the three definition fields (lean/Gen/EquivPolicy.lean)
+EXTRA_BUILD = ['+Gen.EquivPolicy']
+GEN_IMPORTS = ['Gen.EquivPolicy']
+GEN_THEOREMS = ['Vakt.GenEquiv.gen_calculate_type', 'Vakt.GenEquiv.translatedPolicy_covers']
 FLOOR = {'quick': 500, 'thorough': 10000}
 FIELDS = ['subjects', 'resources', 'actions']
 
